@@ -426,14 +426,19 @@ def C20():
     }
 
 
+def enum_static():
+    from kit.enum_static import EnumStatic
+    return EnumStatic()
+
+
 def C15():
     gn = gen_native()
     return {
-        'level': 'exploration', 'parts': [gn], 'samples': [], 'own_classes': C15_CLASSES,
+        'level': 'exploration', 'parts': [gn, enum_static()], 'samples': [], 'own_classes': C15_CLASSES,
         'assumptions': [
             'bounded and partial: programs are the probe theories with enum types (p3: Zero / Succ; p9: Var(Name) / App(Expr, Expr) / Unit); operation sequences as stated in coverage.rule; never counted as proof',
             'decided: after every close() every element of an enum type has at least one constructor case (so <enum>_case cannot panic), <enum>_cases lists exactly the constructor applications that evaluate to the element, each reported application evaluates to an element equal to it; new_<enum>(Case) returns the existing value of the constructor application or a fresh element and the application evaluates to it afterwards',
-            'NOT decided: "the compiler accepts no rule that could create an enum element other than through a constructor" (static check, eqlog.eql rules evaluated by generated code); the API side of that clause is only observed: the harness has no way to create an enum element except through constructors because the emitted module offers none',
+            'static half, bounded (part enum_static): 8 programs whose rule would create an enum element through a non-constructor function or an unbound variable must be rejected with a diagnostic, 5 neighbours that use constructor applications (or a plain type) must be accepted; in the modules emitted for the enum probes every `pub fn (&mut self ..) -> <Enum>` is new_<enum>(value: <Enum>Case) or define_<constructor>. The expectations come from the property statement; the semantic check itself (eqlog.eql rules evaluated by generated code) is not under contract',
         ],
     }
 
@@ -555,7 +560,7 @@ def C18():
 
 PROPERTIES = {'C02': C02, 'C15': C15, 'C09': C09, 'C19': C19, 'C13': C13, 'C20': C20, 'C01': C01, 'C03': C03, 'C04': C04, 'C05': C05, 'C06': C06, 'C07': C07, 'C14': C14, 'C08': C08, 'C16': C16, 'C18': C18, 'C11': C11}
 
-NATIVES = {'uf_0': lambda: uf_native(0), 'uf_1': lambda: uf_native(1), 'rt_wb': lambda: rt_native('wb'), 'rt_pt': lambda: rt_native('pt'), 'rt_ts': lambda: rt_native('ts'), 'sn': sn_native, 'sd': sd_native, 'gen': gen_native, 'emit_sn': emit_sn, 'gen_twice': GenTwice, 'compile_twice': compile_twice, 'gen_both_builds': GenBothBuilds, 'compile_ok': compile_ok, 'uf_deep_0': lambda: UfDeep(0), 'uf_deep_1': lambda: UfDeep(1)}
+NATIVES = {'uf_0': lambda: uf_native(0), 'uf_1': lambda: uf_native(1), 'rt_wb': lambda: rt_native('wb'), 'rt_pt': lambda: rt_native('pt'), 'rt_ts': lambda: rt_native('ts'), 'sn': sn_native, 'sd': sd_native, 'gen': gen_native, 'emit_sn': emit_sn, 'gen_twice': GenTwice, 'compile_twice': compile_twice, 'gen_both_builds': GenBothBuilds, 'compile_ok': compile_ok, 'uf_deep_0': lambda: UfDeep(0), 'uf_deep_1': lambda: UfDeep(1), 'enum_static': enum_static}
 
 
 def replay(pid, path):
